@@ -85,6 +85,9 @@ class Event:
             elif (n_eq==0) and (rate is None):
                 raise InputStateError("Rate cannot be found in Event or Transitions")
             else:
+                if n_eq==1:
+                    # case 4: the one member that carries an equation supplies the rate
+                    rate=[tr.equation for tr in transition_list if tr.equation is not None][0]
                 self.rate=rate
                 
         self.transition_list=transition_list
